@@ -4,6 +4,8 @@ import Xrl.Props.C02
 import Xrl.Props.C05
 import Xrl.Props.C10
 import Xrl.Spec.JumpRatio
+import Xrl.Gen.F_cs_line
+import Xrl.Gen.F_cs_barns
 /-!
 # Helpers for C09 (jump-ratio XRF cross sections)
 -/
@@ -117,8 +119,8 @@ theorem edgeOrder_iff : edgeOrderB T Z = true ↔
 macro "c09_pleaf" : tactic =>
   `(tactic| first
     | rfl
-    | (congr 1; field_simp; done)
-    | (congr 1; field_simp; ring)
+    | (apply congrArg Expect.value; first | (field_simp; done) | (field_simp; ring))
+    | (apply congrArg nonzero; first | (field_simp; done) | (field_simp; ring))
     | (exfalso; linarith)
     | (exfalso; simp_all; done)
     | (exfalso; simp_all; linarith))
@@ -165,7 +167,7 @@ macro "c09_crunch" : tactic =>
 theorem shellFactor_K (E : ℝ) : shellFactor T Z 0 E =
     if edge T Z 0 < E ∧ 0 < edge T Z 0 then
       (if 0 < jump T Z 0 then
-        (if 0 < fyield T Z 0 then .value ((jump T Z 0 - 1) / jump T Z 0 * fyield T Z 0) else .fails)
+        (if 0 < fyield T Z 0 then nonzero ((jump T Z 0 - 1) / jump T Z 0 * fyield T Z 0) else .fails)
       else .fails)
     else .fails := by
   simp only [shellFactor, vacancy, tau, above_0, screening, excited, avail_jump, avail_fyield,
@@ -181,8 +183,17 @@ functions meet them. -/
 
 noncomputable section
 
+def restL1 (E e1 j1 w F : ℝ) : Expect ℝ :=
+  if e1 < E ∧ 0 < e1 then
+    if j1 = 0 then .fails else if w = 0 then .fails else nonzero (F * ((j1 - 1) / j1 * w))
+  else .fails
+
+def flatL1 (E eK e1 jK j1 w : ℝ) : Expect ℝ :=
+  if eK < E ∧ 0 < eK then (if jK = 0 then .fails else restL1 E e1 j1 w (1 / jK))
+  else restL1 E e1 j1 w 1
+
 def tailL2 (f12 w F t1 t2 : ℝ) : Expect ℝ :=
-  if 0 < t1 ∧ f12 = 0 then .fails else if w = 0 then .fails else .value (F * ((t2 + t1 * f12) * w))
+  if 0 < t1 ∧ f12 = 0 then .fails else if w = 0 then .fails else nonzero (F * ((t2 + t1 * f12) * w))
 
 def restL2 (E e1 e2 j1 j2 f12 w F : ℝ) : Expect ℝ :=
   if e1 < E ∧ 0 < e1 then
@@ -199,7 +210,7 @@ def tailL3 (f12 f13 fp13 f23 w F t1 t2 t3 : ℝ) : Expect ℝ :=
   if 0 < t2 ∧ f23 = 0 then .fails
   else if 0 < t1 ∧ ((f13 + fp13 = 0 ∨ f12 = 0) ∨ f23 = 0) then .fails
   else if w = 0 then .fails
-  else .value (F * ((t3 + t2 * f23) + t1 * ((f13 + fp13) + f12 * f23)) * w)
+  else nonzero (F * ((t3 + t2 * f23) + t1 * ((f13 + fp13) + f12 * f23)) * w)
 
 def restL3 (E e1 e2 e3 j1 j2 j3 f12 f13 fp13 f23 w F : ℝ) : Expect ℝ :=
   if e1 < E ∧ 0 < e1 then
@@ -217,6 +228,28 @@ def flatL3 (E eK e1 e2 e3 jK j1 j2 j3 f12 f13 fp13 f23 w : ℝ) : Expect ℝ :=
   else restL3 E e1 e2 e3 j1 j2 j3 f12 f13 fp13 f23 w 1
 
 end
+
+theorem shellFactor_L1 (E : ℝ) :
+    shellFactor T Z 1 E = flatL1 E (edge T Z 0) (edge T Z 1) (jump T Z 0) (jump T Z 1) (fyield T Z 1) := by
+  simp only [shellFactor, vacancy, tau, above_0, above_1, screening, excited_iff, avail_jump, avail_fyield,
+    Hdr.K_SHELL, Hdr.L1_SHELL, Hdr.L2_SHELL, Hdr.L3_SHELL, decide_eq_true_eq, if_true, lit0, lit1, Int.reduceEq, if_false]
+  have n1 := jump_nonneg T Z 0
+  have n2 := jump_nonneg T Z 1
+  have n4 := fyield_nonneg T Z 1
+  generalize edge T Z 0 = eK at *
+  generalize edge T Z 1 = e1 at *
+  generalize jump T Z 0 = jK at *
+  generalize jump T Z 1 = j1 at *
+  generalize fyield T Z 1 = w at *
+  have zK := eq0_iff n1
+  have z1 := eq0_iff n2
+  have zw := eq0_iff n4
+  unfold flatL1 restL1
+  simp only [zK, z1, zw, ite_not]
+  clear zK z1 zw
+  by_cases hK : eK < E ∧ 0 < eK <;> by_cases h1 : e1 < E ∧ 0 < e1 <;>
+    simp only [hK, h1, if_true, if_false, and_self]
+  all_goals c09_pure
 
 theorem shellFactor_L2 (E : ℝ) (o12 : 0 < edge T Z 1 ∧ 0 < edge T Z 2 → edge T Z 2 ≤ edge T Z 1)
     (y2 : 0 < fyield T Z 2 → 0 < edge T Z 2) :
@@ -334,30 +367,63 @@ section code
 variable (E : ℝ) (error : Slot) (he : error.isFull = false)
 include he
 
-theorem jump_from_L2_flat :
-    Meets (Gen.Jump_from_L2 T Z E error) error
-      (flatL2 E (edge T Z 0) (edge T Z 1) (edge T Z 2) (jump T Z 0) (jump T Z 1) (jump T Z 2) (ck T Z 1) (fyield T Z 2)) := by
-  unfold Gen.Jump_from_L2 flatL2 restL2 tailL2
+theorem jump_from_L1_flat :
+    Meets (Gen.Jump_from_L1 T Z E error) error
+      (flatL1 E (edge T Z 0) (edge T Z 1) (jump T Z 0) (jump T Z 1) (fyield T Z 1)) := by
+  unfold Gen.Jump_from_L1 flatL1 restL1 nonzero
   simp only [edge_null, jump_null, fyield_null, ck_null, bind_ok, ddiv, deq_real, lit0, lit1, setErr_notFull he]
   c09_crunch
 
-set_option maxHeartbeats 1000000 in
+theorem jump_from_L2_flat :
+    Meets (Gen.Jump_from_L2 T Z E error) error
+      (flatL2 E (edge T Z 0) (edge T Z 1) (edge T Z 2) (jump T Z 0) (jump T Z 1) (jump T Z 2) (ck T Z 1) (fyield T Z 2)) := by
+  unfold Gen.Jump_from_L2 flatL2 restL2 tailL2 nonzero
+  simp only [edge_null, jump_null, fyield_null, ck_null, bind_ok, ddiv, deq_real, lit0, lit1, setErr_notFull he]
+  c09_crunch
+
+/-- the statement of `jump_from_L3_flat`; proved per position of `E` among the edges -/
+def L3Flat : Prop :=
+  Meets (Gen.Jump_from_L3 T Z E error) error
+    (flatL3 E (edge T Z 0) (edge T Z 1) (edge T Z 2) (edge T Z 3) (jump T Z 0) (jump T Z 1) (jump T Z 2)
+      (jump T Z 3) (ck T Z 1) (ck T Z 2) (ck T Z 3) (ck T Z 4) (fyield T Z 3))
+
+set_option hygiene false in
+/-- one position case of `L3Flat`: fix the position guards, split the rest -/
+macro "c09_L3case" "[" hs:Lean.Parser.Tactic.simpLemma,* "]" : tactic =>
+  `(tactic| (
+    unfold L3Flat Gen.Jump_from_L3 flatL3 restL3 tailL3 nonzero
+    simp only [edge_null, jump_null, fyield_null, ck_null, bind_ok, ddiv, deq_real, lit0, lit1, setErr_notFull he]
+    simp only [$hs,*]
+    simp only [and_self, if_true, if_false]
+    c09_crunch))
+
+theorem L3Flat_K1 (hK : edge T Z 0 < E ∧ 0 < edge T Z 0) (h1 : edge T Z 1 < E ∧ 0 < edge T Z 1) :
+    L3Flat T Z E error := by c09_L3case [hK, h1]
+theorem L3Flat_K2 (hK : edge T Z 0 < E ∧ 0 < edge T Z 0) (h1 : ¬ (edge T Z 1 < E ∧ 0 < edge T Z 1))
+    (h2 : edge T Z 2 < E ∧ 0 < edge T Z 2) : L3Flat T Z E error := by c09_L3case [hK, h1, h2]
+theorem L3Flat_K3 (hK : edge T Z 0 < E ∧ 0 < edge T Z 0) (h1 : ¬ (edge T Z 1 < E ∧ 0 < edge T Z 1))
+    (h2 : ¬ (edge T Z 2 < E ∧ 0 < edge T Z 2)) : L3Flat T Z E error := by c09_L3case [hK, h1, h2]
+theorem L3Flat_1 (hK : ¬ (edge T Z 0 < E ∧ 0 < edge T Z 0)) (h1 : edge T Z 1 < E ∧ 0 < edge T Z 1) :
+    L3Flat T Z E error := by c09_L3case [hK, h1]
+theorem L3Flat_2 (hK : ¬ (edge T Z 0 < E ∧ 0 < edge T Z 0)) (h1 : ¬ (edge T Z 1 < E ∧ 0 < edge T Z 1))
+    (h2 : edge T Z 2 < E ∧ 0 < edge T Z 2) : L3Flat T Z E error := by c09_L3case [hK, h1, h2]
+theorem L3Flat_3 (hK : ¬ (edge T Z 0 < E ∧ 0 < edge T Z 0)) (h1 : ¬ (edge T Z 1 < E ∧ 0 < edge T Z 1))
+    (h2 : ¬ (edge T Z 2 < E ∧ 0 < edge T Z 2)) : L3Flat T Z E error := by c09_L3case [hK, h1, h2]
+
 theorem jump_from_L3_flat :
     Meets (Gen.Jump_from_L3 T Z E error) error
       (flatL3 E (edge T Z 0) (edge T Z 1) (edge T Z 2) (edge T Z 3) (jump T Z 0) (jump T Z 1) (jump T Z 2)
       (jump T Z 3) (ck T Z 1) (ck T Z 2) (ck T Z 3) (ck T Z 4) (fyield T Z 3)) := by
-  unfold Gen.Jump_from_L3 flatL3 restL3 tailL3
-  simp only [edge_null, jump_null, fyield_null, ck_null, bind_ok, ddiv, deq_real, lit0, lit1, setErr_notFull he]
-  by_cases hK : edge T Z 0 < E ∧ 0 < edge T Z 0 <;> by_cases h1 : edge T Z 1 < E ∧ 0 < edge T Z 1 <;>
-    simp only [hK, h1, if_true, if_false]
-  · c09_crunch
-  · by_cases h2 : edge T Z 2 < E ∧ 0 < edge T Z 2 <;> simp only [h2, if_true, if_false]
-    · c09_crunch
-    · c09_crunch
-  · c09_crunch
-  · by_cases h2 : edge T Z 2 < E ∧ 0 < edge T Z 2 <;> simp only [h2, if_true, if_false]
-    · c09_crunch
-    · c09_crunch
+  change L3Flat T Z E error
+  by_cases hK : edge T Z 0 < E ∧ 0 < edge T Z 0 <;> by_cases h1 : edge T Z 1 < E ∧ 0 < edge T Z 1
+  · exact L3Flat_K1 T Z E error he hK h1
+  · by_cases h2 : edge T Z 2 < E ∧ 0 < edge T Z 2
+    · exact L3Flat_K2 T Z E error he hK h1 h2
+    · exact L3Flat_K3 T Z E error he hK h1 h2
+  · exact L3Flat_1 T Z E error he hK h1
+  · by_cases h2 : edge T Z 2 < E ∧ 0 < edge T Z 2
+    · exact L3Flat_2 T Z E error he hK h1 h2
+    · exact L3Flat_3 T Z E error he hK h1 h2
 
 end code
 
@@ -365,8 +431,8 @@ end code
 /-! ## expectations are never `any`; values are non-zero -/
 
 theorem shellFactor_ne_any (T : Tables ℝ) (Z s : Int) (E : ℝ) : shellFactor T Z s E ≠ .any := by
-  unfold shellFactor
-  split_ifs <;> (try split) <;> simp
+  unfold shellFactor nonzero
+  split_ifs <;> (try split) <;> (try split_ifs) <;> simp
 
 theorem radRate_ne_any (T : Tables ℝ) (Z line : Int) : Spec.RadRate T Z line ≠ .any := by
   simp only [Spec.RadRate, singleRate]
@@ -384,14 +450,18 @@ theorem rad_null (T : Tables ℝ) (Z line : Int) :
     Gen.RadRate T Z line Slot.null = Except.ok (valOr0 (Spec.RadRate T Z line), Slot.null) :=
   C10.meets_null (C10.rad_rate_spec T Z Slot.null rfl line) (radRate_ne_any T Z line)
 
-theorem shareNonzero_iff (T : Tables ℝ) (Z s : Int) (E : ℝ) :
-    shareNonzeroB T Z s E = true ↔ ∀ f, shellFactor T Z s E = .value f → f ≠ 0 := by
-  unfold shareNonzeroB
-  cases h : shellFactor T Z s E with
-  | value v => simp [lit0]
-  | fails => simp
-  | any => simp
-
+/-- a share that is reported is not zero -/
+theorem shellFactor_value_ne_zero (T : Tables ℝ) (Z s : Int) (E : ℝ) {f : ℝ} (h : shellFactor T Z s E = .value f) : f ≠ 0 := by
+  unfold shellFactor at h
+  split_ifs at h
+  · split at h
+    · unfold nonzero at h
+      simp only [deq_real, lit0] at h
+      split_ifs at h with h0
+      injection h with h
+      rw [← h]; exact h0
+    · cases h
+  · split at h <;> cases h
 
 /-! ## the line → shell map on the ranges of cs_line.c -/
 
@@ -435,14 +505,14 @@ theorem fluorShell_ne_any (shell : Int) : Spec.CS_FluorShell T Z shell E ≠ .an
     · simp
   · simp
 
-/-- a value of the shell cross section is photo × share, hence non-zero when the share is -/
-theorem fluorShell_value_ne_zero (shell : Int) (hNZ : shareNonzeroB T Z shell E = true) {v : ℝ}
+/-- a value of the shell cross section is photo × share, hence non-zero -/
+theorem fluorShell_value_ne_zero (shell : Int) {v : ℝ}
     (h : Spec.CS_FluorShell T Z shell E = .value v) : v ≠ 0 := by
   unfold Spec.CS_FluorShell at h
   split_ifs at h
   split at h
   · rename_i f hf
-    have fne := (shareNonzero_iff T Z shell E).mp hNZ f hf
+    have fne := shellFactor_value_ne_zero T Z shell E hf
     split at h
     · rename_i c hc
       have cpos := (interp_exp_pos (by unfold Spec.CS_Photo at hc; exact hc)).ne'
@@ -482,7 +552,7 @@ theorem fluorLine_ne_any (line : Int) : Spec.CS_FluorLine T Z line E ≠ .any :=
     · unfold timesRate; split <;> simp
     · simp
 
-theorem fluorLine_value_ne_zero (line : Int) (hNZ : ∀ s, lineShell line = some s → shareNonzeroB T Z s E = true) {v : ℝ}
+theorem fluorLine_value_ne_zero (line : Int) {v : ℝ}
     (h : Spec.CS_FluorLine T Z line E = .value v) : v ≠ 0 := by
   simp only [Spec.CS_FluorLine, deq_real, lit0] at h
   split_ifs at h with h1 h2
@@ -499,7 +569,7 @@ theorem fluorLine_value_ne_zero (line : Int) (hNZ : ∀ s, lineShell line = some
       · rename_i rr cs hr hc
         injection h with h
         rw [← h]
-        exact mul_ne_zero (radRate_value_ne_zero T Z line hr) (fluorShell_value_ne_zero T Z E s (hNZ s hs) hc)
+        exact mul_ne_zero (radRate_value_ne_zero T Z line hr) (fluorShell_value_ne_zero T Z E s hc)
       · cases h
     · cases h
 
